@@ -4,12 +4,12 @@ INFO = {}
 
 
 def unit(name, harness, inst, mode='BITS', flavours=('rel',), sites=(), cfg=None, extra=(), diff=False, weight=1,
-         defs=(), witness=False):
+         defs=(), witness=False, timeout=600):
     out = []
     for fl in flavours:
         out.append({'name': f'{name}.{fl}', 'harness': harness, 'inst': inst, 'mode': mode, 'flavour': fl,
                     'sites': list(sites), 'cfg': dict(cfg or {}), 'extra': list(extra), 'diff': diff, 'weight': weight,
-                    'defs': list(defs), 'witness': witness})
+                    'defs': list(defs), 'witness': witness, 'timeout': timeout})
     return out
 
 
@@ -62,3 +62,93 @@ def units(pid, tier, seed):
     if f is None:
         return None
     return f(tier, seed)
+
+
+# ------------------------------------------------------------------------------------------------ C01 / C14
+VEC = {'f1': 'vector::float1', 'f2': 'vector::float2', 'f3': 'vector::float3', 'f4': 'vector::float4',
+       'd1': 'vector::double1', 'd2': 'vector::double2', 'd3': 'vector::double3', 'd4': 'vector::double4'}
+SA = {'symbolic_alloc': True}
+
+INFO['C01'] = {
+    'bounds': 'row-major: N<=3 quick / 4 thorough, coordinate scalars size_t/unsigned/int, extents UNBOUNDED subject to '
+              'prod(s)*sizeof(cell) < 2^63 (INT mode); Morton (pdep and both portable variants): N<=3 quick / 4 thorough, '
+              'every extent <= 2^floor((63-log2 cell)/N); Hilbert: N=2, extents <= 2^6 quick / 2^8 thorough, non-square and '
+              'non-power-of-two included; API end-to-end (construct, fill, write at symbolic coordinate, read at symbolic '
+              'coordinate): extents <= 2 (N=3) / 3 (N<=2), all stored bit patterns; output width 1..4 sampled',
+    'outside': 'N>4; grids whose byte size exceeds PTRDIFF_MAX; Hilbert extents above the bound',
+    'cuts': 'view state built from raw bytes for the unbounded-extent kernels (constructor allocation checked separately by rowmajor_ctor)',
+    'assumptions': ['a view returns a reference into its buffer: read-back and non-interference reduce to in-bounds + injectivity of the index map (checked: returned pointer lies in the buffer object, lookup performs no store to shared objects)'],
+}
+INFO['C14'] = {
+    'bounds': 'row-major: identity idx == sum_k c_k prod_{l>k} s_l for all extents (INT mode, as C01); Morton: all coordinates '
+              '< 2^floor(64/N), N=1..4, pdep == portable == reference interleave; Hilbert: 2^k squares, k<=6 quick / <=8 thorough '
+              '(k=9,10 attempted in thorough with a 900 s cap, reported if undecided)',
+    'outside': 'Hilbert k>10; coordinates with bits above floor(64/N) for Morton',
+    'cuts': 'none',
+    'assumptions': [],
+}
+
+
+def layout_units(tier, which):
+    U = []
+    th = tier == 'thorough'
+    Ns = (1, 2, 3, 4) if th else (1, 2, 3)
+    vs = ['f1', 'f3', 'd2', 'd4']
+    k = 0
+    for N in Ns:
+        for C in ('size_t', 'unsigned', 'int'):
+            for v in (vs if th else [vs[k % 4]]):
+                k += 1
+                U += unit(f'c01_rowmajor_{N}_{C}_{v}', 'c01_layouts.cpp', f'rowmajor_h<{N},{C},{VEC[v]}>()', 'INT',
+                          flavours=('rel', 'san') if (C == 'size_t' or th) else ('rel',), sites=[1, 2, 3, 4, 5], cfg=SA,
+                          diff=(N == 2))
+    if which == 'C01':
+        for N in Ns:
+            U += unit(f'c01_rowmajor_ctor_{N}', 'c01_layouts.cpp', f'rowmajor_ctor_h<{N},{VEC[vs[N % 4]]}>()', 'INT',
+                      sites=[1, 2, 3], cfg=SA, diff=(N == 2))
+        k = 0
+        for N in Ns:
+            for C in ('size_t', 'unsigned', 'int'):
+                if not th and C == 'int' and N != 2:
+                    continue
+                v = vs[k % 4]; k += 1
+                U += unit(f'c01_morton_pdep_{N}_{C}_{v}', 'c01_layouts.cpp', f'morton_h<{N},{C},{VEC[v]},true>()', 'BITS',
+                          extra=['-mbmi2'], sites=[1, 2, 3, 5], cfg={'loop_cap': 80}, diff=(N == 2 and C == 'size_t'), weight=10)
+                U += unit(f'c01_morton_port_{N}_{C}_{v}', 'c01_layouts.cpp', f'morton_h<{N},{C},{VEC[v]},false>()', 'BITS',
+                          sites=[1, 2, 3, 5], cfg={'loop_cap': 80}, flavours=('rel', 'san') if C == 'size_t' else ('rel',),
+                          diff=(N == 3 and C == 'size_t'), weight=30)
+                if th or N == 2:
+                    U += unit(f'c01_morton_port2_{N}_{C}_{v}', 'c01_layouts.cpp', f'morton_h<{N},{C},{VEC[v]},false>()', 'BITS',
+                              extra=['-mbmi2'], sites=[1, 2, 3, 5], cfg={'loop_cap': 80}, weight=30)
+        K = 8 if th else 6
+        for C, v in (('size_t', 'f2'), ('unsigned', 'd3')) if not th else (('size_t', 'f2'), ('unsigned', 'd3'), ('int', 'f1')):
+            U += unit(f'c01_hilbert_{C}_{v}', 'c01_layouts.cpp', f'hilbert_h<{C},{VEC[v]},{K}>()', 'BITS', sites=[1, 2, 3, 5],
+                      cfg={'loop_cap': 80, 'query_timeout_ms': 300000}, weight=200, timeout=1500, diff=(C == 'size_t'))
+        # end to end through the public API
+        for lay, lname, ex in ((0, 'rowmajor', []), (1, 'mortonpdep', ['-mbmi2']), (2, 'mortonport', []), (3, 'hilbert', [])):
+            for N in ((1, 2, 3) if lay != 3 else (2,)):
+                B = 2 if (N == 3 or lay == 3) else 3
+                for C, v in (('size_t', vs[(N + lay) % 4]),) + ((('int', 'f2'),) if th or N == 2 else ()):
+                    U += unit(f'c01_api_{lname}_{N}_{C}_{v}', 'c01_layouts.cpp', f'api_h<{lay},{N},{C},{VEC[v]},{B}>()', 'BITS',
+                              extra=ex, sites=[1], flavours=('rel', 'dbg') if C == 'size_t' else ('rel',), weight=40,
+                              diff=(N == 2 and C == 'size_t'))
+    return U
+
+
+def units_C01(tier, seed):
+    return layout_units(tier, 'C01')
+
+
+def units_C14(tier, seed):
+    th = tier == 'thorough'
+    U = [u for u in layout_units(tier, 'C14')]
+    for N in (1, 2, 3, 4):
+        for C in ('size_t', 'unsigned', 'int'):
+            U += unit(f'c14_morton_curve_pdep_{N}_{C}', 'c01_layouts.cpp', f'morton_curve_h<{N},{C},true>()', 'BITS',
+                      extra=['-mbmi2'], sites=[1, 2], diff=(N == 3 and C == 'size_t'))
+            U += unit(f'c14_morton_curve_port_{N}_{C}', 'c01_layouts.cpp', f'morton_curve_h<{N},{C},false>()', 'BITS',
+                      sites=[1, 2], diff=(N == 2 and C == 'size_t'))
+    for k in range(1, (9 if th else 7)):
+        U += unit(f'c14_hilbert_curve_{k}', 'c01_layouts.cpp', f'hilbert_curve_h<{k}>()', 'BITS', sites=[1, 2, 3, 4],
+                  cfg={'query_timeout_ms': 600000}, weight=4 ** k, timeout=2400, diff=(k == 3))
+    return U
